@@ -214,11 +214,14 @@ CHECKS = {
        "0 disables); a server's receive timeout is 1.5 x the keep-alive of the CONNECT just received and the timer is never armed for 0. "
        "Re-arm after EVERY send (C15_step_rearms, by a walk through every function of the model): in the events of every call, after the last "
        "packet requested for sending the PINGREQ-send timer is reset with the interval of the returned state, unless the call requests a close, "
-       "the object is not a client or the interval is 0. The expiry effects and the server-side re-arm on every accepted packet are checked by "
-       "the monitor on the implementation's traces and by the correspondence.",
+       "the object is not a client or the interval is 0. EXPIRY EFFECTS, every state (Expiry): the PINGREQ-send timer requests a PINGREQ and arms "
+       "the PINGRESP timer with the configured timeout; the PINGREQ-receive / PINGRESP-receive timers give the connection up (v3.1.1: exactly "
+       "a close request; v5.0: DISCONNECT Keep Alive timeout if it fits, close, Disconnected). SERVER-SIDE RE-ARM: every notified packet of "
+       "every kind but CONNACK, PINGRESP and DISCONNECT resets the PINGREQ-receive timer with the timeout in force. On the model side nothing "
+       "is left to the monitor alone; the implementation is judged by the observer monitor and tied by the correspondence.",
   ref="DESIGN.md §3 C15",
   note=CONN_NOTE + " The observer of the monitor is built only from events and reported expiries; the flag comparison uses the hook.",
-  technique="Coq all-states proof that timer events track the flags (compositional over core.rs functions) + observer monitor + differential correspondence"),
+  technique="Coq all-states proofs: timer events track the flags, re-arm after every send (walker proofs over all functions), expiry effects, server-side re-arm + observer monitor + differential correspondence"),
  "C17": dict(
   text="Coq theorems, Closed under the global context, for EVERY state of the connection model: a frame of a kind the MQTT rule table never lets "
        "the peer of this role send yields exactly one error event and leaves the state unchanged; a CONNECT or CONNACK frame on an established "
